@@ -109,7 +109,12 @@ func gVariantCfgs(v string, base config.ReplicationModeConfig) []config.Replicat
 }
 
 func newGatedWorld(r *ev.Run, opts *config.PersistOptions, seed int64) *world {
-	p := params{Hist: -3000, HSeed: seed, N: 3, Ticks: 0, TP: 2, TD: 1, AsyncWait: "0", StartMode: modeDR}
+	return newFixedWorld(r, opts, seed, 3, "fixed-width")
+}
+
+// newFixedWorld: five stores in two datacenters (fixed labels), n regions, dr-auto-sync 2+1, manager constructed.
+func newFixedWorld(r *ev.Run, opts *config.PersistOptions, seed int64, n int, keys string) *world {
+	p := params{Hist: -3000, HSeed: seed, N: n, Ticks: 0, TP: 2, TD: 1, AsyncWait: "0", StartMode: modeDR, Keys: keys}
 	w := newWorld(r, p, rand.New(rand.NewSource(seed)), opts)
 	site := map[uint64]string{1: "dc1", 2: "dc1", 3: "dc2", 4: "dc2", 5: "dc1"}
 	for id := uint64(1); id <= 5; id++ {
@@ -121,10 +126,11 @@ func newGatedWorld(r *ev.Run, opts *config.PersistOptions, seed int64) *world {
 		w.stores = append(w.stores, s)
 		w.setStore(s, true)
 	}
+	bs := bounds(p.N, p.Keys)
 	for i := 0; i < p.N; i++ {
-		w.regs = append(w.regs, &regionRec{id: uint64(1000 + i), start: boundary(i, p.N), end: boundary(i+1, p.N)})
+		w.regs = append(w.regs, &regionRec{id: uint64(10000 + i), start: bs[i], end: bs[i+1]})
 	}
-	w.nextID = uint64(1000 + p.N)
+	w.nextID = uint64(10000 + p.N)
 	w.cfg = gBase("0")
 	if err := w.call(callInfo{kind: "init"}, w.construct); err != nil || w.m == nil {
 		r.Inconclusive("harness: gated grid cannot construct the manager: %v", err)
